@@ -2,7 +2,7 @@
 # usage: run_seeds.sh [seed-id-prefix]   -- runs the registered check(s) for each stored seed and prints detection status
 cd /verif
 claimed=$(python3 -c "import json;print(' '.join(c['property_id'] for c in json.load(open('MANIFEST.json'))['checks']))")
-for d in seeded/${1:-}*; do
+for d in seeded/${1:-}*; do [ -d "$d" ] || continue
   sid=$(basename $d); prop=${sid%%-*}
   props="$prop ${EXTRA_PROPS:-}"
   res=$(tools/try_seed.sh /verif/$d/patch.diff $props 2>&1 | grep -E "^(VIOLATION|OK|patch|repo)" | head -3 | cut -c1-200 | tr '\n' '|')
